@@ -1410,8 +1410,12 @@ class EBPF(EBPFBase):
 
         super().__init__(**kwargs)
 
-        for k, v in self.__class__.__dict__.items():
-            if isinstance(v, Map):
+        unique = set()  # maps may also be declared in base classes
+        for cls in self.__class__.__mro__:
+            for k, v in cls.__dict__.items():
+                if k in unique or not isinstance(v, Map):
+                    continue
+                unique.add(k)
                 if load_maps is None:
                     v.init(self, None)
                 else:
